@@ -352,7 +352,7 @@ func genProgram(tp *simrt.Tape, cfg gp.SimulatorConfig, legalPct int) textCase {
 		g.lines = append(g.lines, pair...)
 		g.notes = append(g.notes, "mirror-image-operands")
 	case 16: // very many short lines (token counts far above anything the suite assembles)
-		n := []int{400, 1000, 2600}[tp.Draw("manylines.n", 3)]
+		n := []int{40, 40, 40, 300, 900, 2000}[tp.Draw("manylines.n", 6)]
 		for i := 0; i < n; i++ {
 			g.lines = append(g.lines, "dat 0")
 		}
